@@ -225,6 +225,109 @@ pub fn check_aspect(ctx: &Ctx, cfg: &Cfg, b: &Built, aspect: &str, hay: &[u8], s
     }
 }
 
+/// the raw API result of one aspect, as text (used by the relational modes, which compare two
+/// real searchers with each other instead of with the definition)
+pub fn api_result(b: &Built, aspect: &str, hay: &[u8], s: usize, e: usize, anch: bool) -> String {
+    match aspect {
+        "find" => format!("{:?}", guard(|| b.try_find(hay, s, e, anch, false))),
+        "earliest" => format!("{:?}", guard(|| b.try_find(hay, s, e, anch, true)).map(|r| r.map(|o| o.is_some()))),
+        "iter" => format!("{:?}", guard(|| b.try_find_iter(hay, s, e, anch))),
+        "ov" => format!("{:?}", guard(|| b.overlapping_steps(hay, s, e, anch, 2, 4096))),
+        x => panic!("aspect {}", x),
+    }
+}
+
+fn shift(r: &str, by: usize) -> String {
+    // rewrite every "start: N, end: M" by +by (results of a sub-slice search, moved back)
+    let mut out = String::new();
+    let mut rest = r;
+    while let Some(i) = rest.find("start: ") {
+        out.push_str(&rest[..i + 7]);
+        rest = &rest[i + 7..];
+        let j = rest.find(',').unwrap();
+        let n: usize = rest[..j].parse().unwrap();
+        out.push_str(&(n + by).to_string());
+        rest = &rest[j..];
+        let k = rest.find("end: ").unwrap();
+        out.push_str(&rest[..k + 5]);
+        rest = &rest[k + 5..];
+        let j = rest.find(|c: char| !c.is_ascii_digit()).unwrap();
+        let n: usize = rest[..j].parse().unwrap();
+        out.push_str(&(n + by).to_string());
+        rest = &rest[j..];
+    }
+    out.push_str(rest);
+    out
+}
+
+/// relational checks: `kind` = every configuration vs the first one; `span` = span search vs
+/// sub-slice search shifted, and bytes outside the span are irrelevant
+pub fn check_hay_rel(ctx: &Ctx, built: &[(Cfg, Built)], hay: &[u8], aspects: u32, rel: &str) {
+    let spans = spans_of(hay.len(), aspects & A_SPANS != 0);
+    let any = !oracle::occs_in(ctx.pats, ctx.ci, hay, 0, hay.len(), false).is_empty();
+    let names: Vec<&str> = [("find", A_FIND), ("iter", A_ITER), ("ov", A_OV), ("earliest", A_EARLIEST)].iter().filter(|x| aspects & x.1 != 0).map(|x| x.0).collect();
+    for &(s, e) in &spans {
+        if s > e {
+            continue;
+        }
+        for anch in [false, true] {
+            if anch && aspects & A_ANCH == 0 {
+                continue;
+            }
+            for aspect in &names {
+                if *aspect == "ov" && ctx.kind != Kind::Std {
+                    continue;
+                }
+                if rel == "kind" {
+                    let mut reference: Option<(&Cfg, String)> = None;
+                    for (cfg, b) in built {
+                        if !cfg.supports(anch) {
+                            continue;
+                        }
+                        let r = api_result(b, aspect, hay, s, e, anch);
+                        ctx.rep.case(any);
+                        match &reference {
+                            None => reference = Some((cfg, r)),
+                            Some((c0, r0)) => {
+                                if *r0 != r {
+                                    report_fail(ctx, cfg, aspect, hay, s, e, anch, &format!("the same result as {} = {}", c0.encode(), r0), &r);
+                                }
+                            }
+                        }
+                    }
+                } else {
+                    for (cfg, b) in built {
+                        if !cfg.supports(anch) {
+                            continue;
+                        }
+                        let whole = api_result(b, aspect, hay, s, e, anch);
+                        let sub = shift(&api_result(b, aspect, &hay[s..e], 0, e - s, anch), s);
+                        ctx.rep.case(any);
+                        if whole != sub {
+                            report_fail(ctx, cfg, aspect, hay, s, e, anch, &format!("the sub-slice result shifted = {}", sub), &whole);
+                        }
+                        // changing bytes outside the span never changes the result
+                        let mut h2 = hay.to_vec();
+                        for (i, x) in h2.iter_mut().enumerate() {
+                            if i < s || i >= e {
+                                *x = if *x == b'a' { b'b' } else { b'a' };
+                            }
+                        }
+                        let other = api_result(b, aspect, &h2, s, e, anch);
+                        ctx.rep.case(any);
+                        if whole != other {
+                            report_fail(ctx, cfg, aspect, hay, s, e, anch, &format!("independent of bytes outside the span; with them flipped = {}", other), &whole);
+                        }
+                    }
+                }
+            }
+        }
+        if ctx.rep.full() {
+            return;
+        }
+    }
+}
+
 fn spans_of(len: usize, all: bool) -> Vec<(usize, usize)> {
     let mut v = vec![(0, len)];
     if all {
@@ -329,6 +432,25 @@ pub fn family(name: &str, thorough: bool, seed: usize) -> Family {
             }
             Family { name: name.into(), lists, hays: gen::strings(b"abc", 0, if thorough { 6 } else { 4 }) }
         }
+        // deeper tries: 3..6 patterns of length 1..6 over {a,b,c} in random (non-alphabetical)
+        // order; haystacks = short strings + per-list haystacks derived from the patterns
+        "deep" => {
+            let mut rng = gen::Rng(0xDEE9 + seed as u64);
+            let n = if thorough { 20000 } else { 2500 };
+            let mut lists = vec![];
+            for i in 0..n {
+                let k = 3 + rng.below(4);
+                let maxl = if i % 3 == 0 { 4 } else { 6 };
+                lists.push((0..k).map(|_| { let l = 1 + rng.below(maxl); rng.bytes(b"abc", l) }).collect());
+            }
+            Family { name: name.into(), lists, hays: gen::strings(b"abc", 0, if thorough { 5 } else { 4 }) }
+        }
+        // shape-directed lists (states with many transitions, sparse-chunk boundaries of the
+        // contiguous NFA, a^k b, nested suffixes, > 100 patterns); haystacks derived per list
+        "wide" => {
+            let lists: Vec<Vec<Vec<u8>>> = crate::ac::wide_lists(thorough, seed).into_iter().filter(|l| l.iter().all(|p| p.len() <= 12)).collect();
+            Family { name: name.into(), lists, hays: vec![vec![], b"z".to_vec()] }
+        }
         // ASCII case-insensitivity: letters of both cases, boundary bytes and non-ASCII
         "ci" => {
             let alpha: &[u8] = &[b'a', b'A', b'z', b'Z', b'@', b'[', b'`', b'{', 0xC1, 0xE1];
@@ -350,12 +472,43 @@ pub fn family(name: &str, thorough: bool, seed: usize) -> Family {
     }
 }
 
+/// haystacks that walk the trie of this particular list: every pattern prefix followed by every
+/// pattern suffix, with and without a foreign byte after it
+pub fn derived_hays(pats: &[Vec<u8>]) -> Vec<Vec<u8>> {
+    let mut v: Vec<Vec<u8>> = vec![];
+    let qs: Vec<&Vec<u8>> = if pats.len() > 24 { pats.iter().step_by(pats.len() / 24 + 1).collect() } else { pats.iter().collect() };
+    for p in pats {
+        for i in 1..=p.len() {
+            for q in qs.iter() {
+                for j in 0..q.len() {
+                    let mut h = p[..i].to_vec();
+                    h.extend_from_slice(&q[j..]);
+                    if h.len() <= 12 {
+                        let mut h2 = h.clone();
+                        h2.push(b'z');
+                        v.push(h);
+                        v.push(h2);
+                    }
+                }
+            }
+        }
+    }
+    v.sort();
+    v.dedup();
+    if v.len() > 1500 {
+        let st = v.len() / 1500 + 1;
+        v = v.into_iter().step_by(st).collect();
+    }
+    v
+}
+
 pub fn run(args: &Args) -> Report {
     let thorough = args.thorough();
     let seed = args.num("seed", 0);
     let kinds: Vec<Kind> = args.get("kinds", "lf,ll").split(',').map(Kind::parse).collect();
     let aspects = parse_aspects(&args.get("aspects", "find,iter"));
     let cfgname = args.get("cfgs", "all");
+    let rel = args.get("rel", "def");
     let fams: Vec<String> = args.get("families", "small").split(',').map(|s| s.to_string()).collect();
     let cis: Vec<bool> = match args.get("ci", "0").as_str() {
         "0" => vec![false],
@@ -363,7 +516,7 @@ pub fn run(args: &Args) -> Report {
         _ => vec![false, true],
     };
     let rep = Report::new(
-        &format!("sem[{}|{}|{}]", args.get("kinds", "lf,ll"), args.get("aspects", "find,iter"), args.get("families", "small")),
+        &format!("sem[{}|{}|{}|{}]", args.get("kinds", "lf,ll"), args.get("aspects", "find,iter"), args.get("families", "small"), args.get("rel", "def")),
         format!(
             "families {:?} (tier {}): small = all lists of <=3 patterns of length <=3 over {{a,b}} incl. empty pattern and duplicates ({} of the 3-lists in quick), haystacks = all strings over the family alphabet up to length {}; abc/ci = see bounded/src/sem.rs; configurations = set '{}'",
             fams,
@@ -375,7 +528,11 @@ pub fn run(args: &Args) -> Report {
         "case = (pattern list, match kind, ci, configuration, haystack, span, anchoring, API aspect); non-trivial = at least one pattern occurs in the haystack".into(),
     );
     for fname in &fams {
-        let fam = family(fname, thorough, seed);
+        let mut fam = family(fname, thorough, seed);
+        if args.has("maxhay") {
+            let mh = args.num("maxhay", 6);
+            fam.hays.retain(|h| h.len() <= mh);
+        }
         rep.count(&format!("pattern_lists[{}]", fname), fam.lists.len());
         rep.count(&format!("haystacks[{}]", fname), fam.hays.len());
         if let Some(l) = fam.lists.get(fam.lists.len() / 2) {
@@ -402,8 +559,13 @@ pub fn run(args: &Args) -> Report {
                             }
                         }
                     }
-                    for hay in &fam.hays {
-                        check_hay(&ctx, &built, hay, aspects);
+                    let derived = if fname == "deep" || fname == "wide" { derived_hays(pats) } else { vec![] };
+                    for hay in fam.hays.iter().chain(derived.iter()) {
+                        if rel != "def" {
+                            check_hay_rel(&ctx, &built, hay, aspects, &rel);
+                        } else {
+                            check_hay(&ctx, &built, hay, aspects);
+                        }
                         if rep.full() {
                             return;
                         }
